@@ -56,6 +56,18 @@ chk("C16", "exploration", "xe", "5/C16", "exhaustive enumeration of every (predi
 chk("C17", "exploration", "xe", "5/C17", "exhaustive enumeration of all enumerants and all bit subsets, the real parser as transition function",
     "Every enumerant of ExecutionMode/Decoration and every subset of the four parameterised masks through additional_operands and the real parser (exact accept; reject with a parameter fewer / a surplus word); capabilities/extensions for every enumerant and every subset of every mask; all 64 operand variants for id reflection and payload round trips.",
     "Capabilities/extensions per enumerant are a single-rendering snapshot of the pinned tree.")
+chk("C06", "exploration", "xb", "5/C06", "exhaustive enumeration of one frozen call site per Builder method x argument configurations, plus BFS closure over complete Builder histories; every built module through assemble -> load -> compare",
+    "All 1149 instruction-emitting Builder methods (hand-written and generated) called in their legal context with distinct positional arguments, implicit/explicit ids, every trailing run of optionals, list lengths 0/1/2, insertion points, every (quick: strided) enumerant and mask value of each value parameter with its grammar parameters: the emitted instruction has the method's opcode and the arguments in grammar order, and the finished module assembles, loads and compares equal operand for operand with the version set and a bound above every id. Complete histories over 21 calls to depth 6 (thorough 8).",
+    "Argument VALUES are one per position (ids from the builder's own allocator); methods whose signature cannot express a grammar-conforming instruction for some mask value are counted not-expressible. A signature change in the Builder makes vcalls fail to build (exit 2).")
+chk("C07", "exploration", "xb", "5/C07", "bounded-exhaustive enumeration of modules (every instruction shape in context, typed constants, ext-inst tables, headers, thorough: all 2^32 f32 patterns) against an independent reference renderer and an independent reference reader",
+    "Every U-inst shape embedded in a loadable module, 12 constant types x boundary patterns (type before/after), OpExtInst over both known sets and unknown ones x every table number, 228 headers: one line per instruction in assembly order, token-exact against the reference renderer; the reference reader reconstructs assemble()[5..] from the text; a global text -> words map asserts no collision; f32 rendering reads back for every pattern (thorough: all 2^32).",
+    "Spacing is not significant; spelling of 8/16-bit constants is free (injectivity only); NaN payloads excepted; unambiguity is claimed for loader-produced and grammar-conforming Builder modules.")
+chk("C18", "exploration", "xb", "5/C18", "bounded-exhaustive enumeration of liftable modules (every result-producing block opcode x every shape; type/constant/function/block/terminator/phi structures) with the lifted module read through its Debug rendering",
+    "(a) each of the 595 result-producing block opcodes the lifter handles, every U-inst shape, every id operand a distinct declared type: lifted operation's leaves equal the DR operands positionally (raw id or Token of the referenced type); (b) ~6000 module shapes: version, capability order, memory model, one type/constant/operation per declaration in order, function control, result token, block count, terminators, phi argument types.",
+    "The subset is what the lifter handles at the pinned commit (no forward branches, switch, OpFunctionCall/OpExtInst); four known findings (parameters of parameterised masks are dropped or rejected) are listed in known_findings.json.")
+chk("C20", "fault_enumeration", "xp", "5/C20", "fault enumeration through the real rspirv-dis process: a strided selection of every corruption kind of every seed, every prefix of a valid module, short hostile word strings; stdout/exit status against the in-process library result",
+    "13k (thorough 400k) files written to disk and fed to the binary built from /repo: exit status 0, stdout equals the library disassembly + newline or the one-line Display of the loading error, no panic text on stderr.",
+    "One process per file, so a strided selection of the C03 universe rather than all of it (exhaustive: false); unreadable files are outside the statement.")
 chk("C19", "model_checking", "xs", "5/C19", "explicit-state exploration of the real Storage against a Vec model: full enumeration and closure on the whole stored sequence",
     "10-operation alphabet over 5 values (equal-by-key pairs, a value unequal to itself): returned index, freshness, lookup of the new and of every earlier token after every step.",
     "Closure key is the full stored sequence, so no merging assumption.")
@@ -66,7 +78,8 @@ m = {"version": 1, "setup_cmd": "bin/setup",
      "engines": [
         {"name": "xs", "path": "harness/vcheck/src/xs.rs", "serves_properties": ["C05", "C10", "C11", "C12", "C13", "C14", "C19"], "kind_free_text": "own explicit-state explorer over real objects: shortlex full enumeration + BFS closure on a canonical key, replay-based, rayon-parallel, deterministic merge"},
         {"name": "xe", "path": "harness/vcheck/src/checks", "serves_properties": ["C08", "C09", "C16", "C17"], "kind_free_text": "exhaustive finite-domain sweeps against the golden snapshot"},
-        {"name": "xb", "path": "harness/vcheck/src/{universe,mutate,acceptor,pcompare}.rs", "serves_properties": ["C01", "C02", "C03", "C04", "C15"], "kind_free_text": "bounded-exhaustive generator of instruction shapes / modules / corruptions with reference encoder, acceptor and layout sorter"}],
+        {"name": "xp", "path": "harness/vcheck/src/checks/c20.rs", "serves_properties": ["C20"], "kind_free_text": "process driver: runs the real rspirv-dis binary built from /repo on every file of a universe, 16 at a time"},
+        {"name": "xb", "path": "harness/vcheck/src/{universe,mutate,acceptor,pcompare,disasm_ref}.rs, harness/vcalls", "serves_properties": ["C01", "C02", "C03", "C04", "C06", "C07", "C15", "C18"], "kind_free_text": "bounded-exhaustive generator of instruction shapes / modules / corruptions with reference encoder, acceptor and layout sorter"}],
      "checks": [C[p] for p in props if p in C],
      "notes": "See DESIGN.md. known_findings.json lists genuine defects (all repaired so far by 'fix:' commits in /repo).",
      "not_applicable": [{"property_id": p, "reason": "check not built yet (work in progress; see DESIGN.md section 12)"} for p in props if p not in C]}
